@@ -102,7 +102,7 @@ LAYOUTS = [
     ('cont1', dict(lay='cont1')),
     ('dtnull', dict(lay='dtnull')),
 ]
-LAYOUTS_QUICK = ['typed', 'typed-conv', 'flex-contig', 'vec2', 'idx', 'dtnull']
+LAYOUTS_QUICK = ['typed', 'typed-conv', 'flex-contig', 'vec2', 'idx', 'rsz', 'dtnull']
 
 
 def forms_for(L, st, ct, sd):
